@@ -904,13 +904,13 @@ func epScenario(sc *epSpec) *vsched.Scenario {
 		if !o.bodyDone {
 			return "deadlock: harness thread blocked: " + strings.Join(r.Blocked, "; "), o.log
 		}
-		if len(r.Blocked) > 0 {
-			return "threads left blocked after the pool was closed: " + strings.Join(r.Blocked, "; "), o.log
-		}
 		for _, c := range o.conns {
 			if c.closed != 1 {
 				return fmt.Sprintf("transport of %s closed %d times by the end (after pool.Close)", c.name(), c.closed), o.log
 			}
+		}
+		if len(r.Blocked) > 0 {
+			return "threads left blocked after the pool was closed: " + strings.Join(r.Blocked, "; "), o.log
 		}
 		for _, k := range epAllTuples() {
 			if len(o.tuples[k]) > 0 && o.kern.has(k) {
